@@ -49,6 +49,10 @@ def set_caching(h, V, on):
                 h.call(nb, v, C[d], C["NEIGHBOR"])
 
 
+def flag(h, on):
+    h.fn("edgegraph.structure.vertex.Vertex").dict["NEIGHBOR_CACHING"] = bool(on)
+
+
 def snapshot(V, extra_links=()):
     st = {}
     for n, v in V.items():
@@ -129,6 +133,8 @@ def run(ctx):
                 combos.append((("RoadLink", "FixedEndsEdge")[nrow % 8 == 1], "Vertex"))     # user edge classes: other constructor parameter names / ends fixed at construction
             if len(keys) < 3:
                 combos.append((LINKTYPES[(nrow + 1) % 3], "Vertex", True))     # caching on, every vertex asked for its neighbours before the build
+                if nrow % 2 == 0:
+                    combos.append((LINKTYPES[(nrow + 2) % 3], "Vertex", "off-during-build"))     # memo warmed with caching on, flag off while the builder runs, on again for the read-back
             for lt, vcls, *warm in combos:
                 if len(keys) == 2 and lt != "DirectedEdge" and (len(rows[0]) + len(rows[1])) > 3 and vcls == "Vertex" and not warm:
                     continue
@@ -138,7 +144,11 @@ def run(ctx):
                     one_shot = lt == "DirectedEdge" and (len(rows[0]) + len(keys)) % 2 == 0     # rows given as one-shot iterators (the docstring allows any iterable)
                     adj = DictV([[V[k], (IterV([V[x] for x in row]) if one_shot else Seq([V[x] for x in row], "list"))] for k, row in zip(keys, rows)])
                     pre = snapshot(V)
+                    if warm == ["off-during-build"]:
+                        flag(h, False)
                     out = h.call(fdict, adj, h.cls(lt))
+                    if warm == ["off-during-build"]:
+                        flag(h, True)
                 except Unknown as u:
                     res.ob(False)
                     res.undecide(f"{DICT_FN} keys={keys} rows={rows} {lt}: {u}")
@@ -155,9 +165,9 @@ def run(ctx):
                         if x not in want_members:
                             want_members.append(x)
                 why = compare(out, V, want, want_members, h, links_only=(vcls == "EqVert")) or readback(h, V, want, lt) or (prior_universe(W, verts) if vcls != "EqVert" else None)
-                res.ob(why is None, sig=("dict", keys, rows, lt, vcls, bool(warm)), sample={"builder": "load_adj_dict", "adjacency": {k: list(r) for k, r in zip(keys, rows)}, "linktype": lt})
+                res.ob(why is None, sig=("dict", keys, rows, lt, vcls, tuple(warm)), sample={"builder": "load_adj_dict", "adjacency": {k: list(r) for k, r in zip(keys, rows)}, "linktype": lt})
                 if why:
-                    feats = ("caching-on-warm," if warm else "") + ("rows-are-iterators," if one_shot else "") + (f"vertex-class={vcls}," if vcls != "Vertex" else "") + f"empty-row={any(len(r) == 0 for r in rows)},self-entry={any(k in r for k, r in zip(keys, rows))},repeated-entry={any(len(set(r)) < len(r) for r in rows)},value-not-a-key={any('e' in r for r in rows)}"
+                    feats = ("caching-on-warm," if warm else "") + ("flag-off-during-build," if warm == ["off-during-build"] else "") + ("rows-are-iterators," if one_shot else "") + (f"vertex-class={vcls}," if vcls != "Vertex" else "") + f"empty-row={any(len(r) == 0 for r in rows)},self-entry={any(k in r for k, r in zip(keys, rows))},repeated-entry={any(len(set(r)) < len(r) for r in rows)},value-not-a-key={any('e' in r for r in rows)}"
                     res.violation("BUILD-DICT", DICT_FN, feats, f"load_adj_dict({{{', '.join(k + ': ' + str(list(r)) for k, r in zip(keys, rows))}}}, {lt}) on {vcls} objects" + (" with Vertex.NEIGHBOR_CACHING on and neighbors() of every vertex asked before the build" if warm else "") + f": {why}", replay=replay_dict(keys, rows, lt, bool(warm)))
     # ---------------- a row names something that is not a vertex: however the call ends, no link exists that is not a complete link of a
     # listed pair ("exactly one new link ... per listed pair"), and a later build on the same vertices reads back normally
@@ -240,6 +250,8 @@ def run(ctx):
                 combos.append((("RoadLink", "FixedEndsEdge")[ci % 2], "Vertex"))
             if size in (1, 2):
                 combos.append((LINKTYPES[(ci + 2) % 3], "Vertex", True))
+                if ci % 2 == 0:
+                    combos.append((LINKTYPES[ci % 3], "Vertex", "off-during-build"))
             for lt, vcls, *warm in combos:
                 try:
                     V, P, W = world(h, names + ["e"], vcls)
@@ -249,7 +261,11 @@ def run(ctx):
                     mat = Seq([Seq(r, kind) for r in rows], kind)
                     vs = Seq([V[x] for x in names], kind)
                     pre = snapshot(V)
+                    if warm == ["off-during-build"]:
+                        flag(h, False)
                     out = h.call(fmat, mat, vs, h.cls(lt))
+                    if warm == ["off-during-build"]:
+                        flag(h, True)
                 except Unknown as u:
                     res.ob(False)
                     res.undecide(f"{MAT_FN} size={size} cells={cell} {lt}: {u}")
@@ -265,7 +281,7 @@ def run(ctx):
                                 want[b]["links"].append((lt, (a, b)))
                 why = compare(out, V, want, list(names), h, links_only=(vcls == "EqVert")) or readback(h, V, want, lt)
                 why = why or (prior_universe(W, names + ["e"]) if vcls != "EqVert" else None)
-                res.ob(why is None, sig=("matrix", size, cell, lt, vcls, bool(warm)), sample={"builder": "load_adj_matrix", "cells": [list(cell[i * size:(i + 1) * size]) for i in range(size)], "linktype": lt})
+                res.ob(why is None, sig=("matrix", size, cell, lt, vcls, tuple(warm)), sample={"builder": "load_adj_matrix", "cells": [list(cell[i * size:(i + 1) * size]) for i in range(size)], "linktype": lt})
                 if why:
                     res.violation("BUILD-MATRIX", MAT_FN, f"size={size},diagonal={any(cell[i * size + i] for i in range(size))}" + (f",vertex-class={vcls}" if vcls != "Vertex" else "") + (",caching-on-warm" if warm else ""), f"load_adj_matrix(size {size}, truthy cells {cell}, {lt}) on {vcls} objects" + (" with Vertex.NEIGHBOR_CACHING on and neighbors() of every vertex asked before the build" if warm else "") + f": {why}", replay=replay_mat(size, cell, lt))
     # malformed shapes
